@@ -121,7 +121,9 @@ def _validator_src(v, spec, indent, selfname, cls_for_ext=None):
     args = []
     if v.get("field"):
         args.append(ref(v["field"]) if v.get("field_kw") is not True else "field=" + ref(v["field"]))
-    if v.get("discard"):
+    if v.get("discard_empty"):
+        args.append("discard=()")
+    elif v.get("discard"):
         d = v["discard"]
         args.append("discard=" + (ref(d[0]) if len(d) == 1 and v.get("discard_scalar", True) else "[" + ", ".join(ref(x) for x in d) + "]"))
     deco = "@validator" + (f"({', '.join(args)})" if args else "")
@@ -406,6 +408,8 @@ def decorate(shape, name, rng, level=1.0):
                 v["field"] = v["discard"][0]
                 v["discard"] = None
                 v["field_kw"] = p(0.3)
+                if p(0.3):
+                    v["discard_empty"] = True  # @validator(field, discard=()): explicit "discard nothing"
             elif k < 0.45 * level and n > 1:
                 # field= and an explicit discard of other fields
                 v["field"] = rng.choice([f["n"] for f in spec["fields"]])
